@@ -11,7 +11,7 @@ type In struct {
 	HTML   string `json:"html"`
 	User   string `json:"user,omitempty"` // user-origin style sheet
 	Engine string `json:"engine,omitempty"`
-	Kind   string `json:"kind"` // "ow-table" | "pair-table" | "random"
+	Kind   string `json:"kind"` // "ow-table" | "pair-table" | "deco-table" | "random"
 
 	Rules     []Rule `json:"rules"`                // every @page rule, author sheet first (in order), then user sheet
 	RootBreak string `json:"root_break,omitempty"` // break-before of the root element: "", left, right, recto, verso
@@ -35,8 +35,19 @@ type Item struct {
 	BA   string `json:"ba,omitempty"`
 	BI   string `json:"bi,omitempty"`
 	Page string `json:"pg,omitempty"` // page: <name>
+	// vertical box decorations in px (box-decoration-break: slice, the initial value): the top
+	// padding/border go with the first fragment of the block, the bottom ones with the last
+	PadT int    `json:"dpt,omitempty"`
+	PadB int    `json:"dpb,omitempty"`
+	BorT int    `json:"dbt,omitempty"`
+	BorB int    `json:"dbb,omitempty"`
+	Sp   int    `json:"dsp,omitempty"` // spelling of the decoration declarations (0: longhands, 1: shorthands)
 	Kids []Item `json:"kids,omitempty"`
 }
+
+func (it *Item) topDeco() int    { return it.PadT + it.BorT }
+func (it *Item) bottomDeco() int { return it.PadB + it.BorB }
+func (it *Item) decorated() bool { return it.topDeco()+it.bottomDeco() > 0 }
 
 // Rule is one @page rule.
 type Rule struct {
@@ -168,6 +179,29 @@ func (it Item) styleText(legacy bool) string {
 	}
 	if it.Page != "" {
 		parts = append(parts, "page:"+it.Page)
+	}
+	if it.decorated() {
+		if it.Sp == 1 {
+			if it.PadT+it.PadB > 0 {
+				parts = append(parts, fmt.Sprintf("padding:%s", pxList([]int{it.PadT, 0, it.PadB})))
+			}
+			if it.BorT+it.BorB > 0 {
+				parts = append(parts, "border-style:solid", fmt.Sprintf("border-width:%s", pxList([]int{it.BorT, 0, it.BorB})))
+			}
+		} else {
+			if it.PadT > 0 {
+				parts = append(parts, fmt.Sprintf("padding-top:%dpx", it.PadT))
+			}
+			if it.BorT > 0 {
+				parts = append(parts, fmt.Sprintf("border-top:%dpx solid", it.BorT))
+			}
+			if it.PadB > 0 {
+				parts = append(parts, fmt.Sprintf("padding-bottom:%dpx", it.PadB))
+			}
+			if it.BorB > 0 {
+				parts = append(parts, fmt.Sprintf("border-bottom:%dpx solid", it.BorB))
+			}
+		}
 	}
 	return strings.Join(parts, ";")
 }
